@@ -258,4 +258,46 @@ def unserializePublic (C : Crypto) (g : Bytes) (cap : Nat) (tr : Tree) (s : Byte
   let r := gatherFlags C g cap tr p.1
   (r.1, if p.2 then some r.2 else none)
 
+/-! ### several trees in one process: the same token values travel between views of different keys
+
+  `AbstractSignedObject.verify(public_key)` is a function of (key, plaintext, signature) and of nothing else — in
+  particular not of what the Token object has been through before.  `Keyed` is the signature check with the key
+  made explicit; a `View` is one TokenTree(public_key=key); a world is a list of views and a history is a list of
+  (view index, token) offers.  Tokens are values, so "the same Token object is shown to two trees" is simply the
+  same value occurring twice in the history. -/
+
+structure Keyed where
+  hash : Bytes → Bytes
+  vfyK : Bytes → Bytes → Bytes → Bool      -- key_to_bin of the public key, message, signature
+  sigLenK : Bytes → Nat
+
+/-- the interface one tree sees: everything is checked against ITS key -/
+def Keyed.at (K : Keyed) (key : Bytes) : Crypto := ⟨K.hash, K.vfyK key, K.sigLenK key⟩
+
+structure View where
+  key : Bytes
+  cap : Nat
+  tree : Tree
+
+/-- `self.genesis_hash = sha3_256(self.public_key.key_to_bin()).digest()` -/
+def View.genesis (K : Keyed) (v : View) : Bytes := K.hash v.key
+
+def View.fresh (key : Bytes) (cap : Nat) : View := ⟨key, cap, Tree.empty⟩
+
+/-- view.gather_token(t) -/
+def View.offer (K : Keyed) (v : View) (t : Token) : View :=
+  { v with tree := gather (K.at v.key) (v.genesis K) v.cap v.tree t }
+
+def offerAt (K : Keyed) : List View → Nat → Token → List View
+  | [], _, _ => []
+  | v :: vs, 0, t => v.offer K t :: vs
+  | v :: vs, i + 1, t => v :: offerAt K vs i t
+
+def runWorld (K : Keyed) (w : List View) (evs : List (Nat × Token)) : List View :=
+  evs.foldl (fun w e => offerAt K w e.1 e.2) w
+
+/-- the tokens that were offered to view `i`, in order -/
+def offeredTo (i : Nat) (evs : List (Nat × Token)) : List Token :=
+  (evs.filter (fun e => e.1 == i)).map (·.2)
+
 end Ipv8.C16
